@@ -293,7 +293,7 @@ impl Case {
         if self.max_heads >= 2 { out.nontrivial(&request); }
         match self.failed.take() {
             None => out.oracle_ok(),
-            Some((sig, detail)) => out.oracle_fail(&sig, format!("[{label} {mode:?}] {detail}; replay: C14 {request}")),
+            Some((sig, detail)) => { out.tally("oracle_failure_signature", &sig); out.oracle_fail(&sig, format!("[{label} {mode:?}] {detail}; replay: C14 {request}")) },
         }
     }
 }
